@@ -51,6 +51,8 @@ var c16Files = Files{
 	"p_strself.vuego":          `<em v-once>OZ</em><em v-once>OZ2</em>`,
 	"p_ifonce.vuego":           `<div v-for="i in three"><p v-once v-if="i == 1">OI</p></div>`,
 	"p_layslot.vuego":          "---\nlayout: once_slots\n---\n<template #side><p v-once>LA</p><p v-once>LB</p></template><i>body</i>",
+	"p_layslot2.vuego":         "---\nlayout: once_slots2\n---\n<template #head><style v-once>LC</style><b v-once>LD</b></template><i v-once>LG</i><template #foot><script v-once>LE</script><b v-once>LF</b></template>",
+	"layouts/once_slots2.vuego": `<html><head><slot name="head"></slot></head><body><div v-html="content"></div><footer><slot name="foot"></slot></footer></body></html>`,
 	"layouts/once_slots.vuego": `<main><aside><slot name="side"></slot></aside><div v-html="content"></div></main>`,
 	"p_elsefor.vuego":          `<p v-if="nope">p</p><b v-else v-for="i in three" v-once>OL1</b><p v-for="x in none">x</p><u v-else v-for="i in three" v-once>OL2</u><p v-if="nope">p</p><em v-else-if="t" v-for="i in three" v-once>OL3</em>`,
 	"c_elsefor.vuego":          `<ul><li v-if="nope">h</li><li v-else-if="t" v-for="i in three" v-once>OL4</li></ul>`,
@@ -101,6 +103,7 @@ var c16Progs = []c16Prog{
 	{"many", "p_many.vuego", map[string]int{"M01": 1, "M02": 1, "M03": 1, "M04": 1, "M05": 1, "M06": 1, "M07": 1, "M08": 1, "M09": 1, "M10": 1, "M11": 1, "M12": 1, "N01": 1, "N02": 1, "N03": 1, "N04": 1, "N05": 1, "N06": 1, "N07": 1, "N08": 1, "N09": 1, "N10": 1, "N11": 1}, nil, "", nil},
 	{"forifonce", "p_forifonce.vuego", map[string]int{"OG": 1, "OH": 1, "OK": 1}, nil, "", nil},
 	{"layslot", "p_layslot.vuego", nil, map[string]int{"LA": 1, "LB": 1}, "", nil}, // in the layout slot (not a second time in the page content)
+	{"layslot2", "p_layslot2.vuego", nil, map[string]int{"LC": 1, "LD": 1, "LE": 1, "LF": 1, "LG": 1}, "", nil},
 	{"elsefor", "p_elsefor.vuego", map[string]int{"OL1": 1, "OL2": 1, "OL3": 1}, nil, "", nil},
 	{"elsefor2", "p_elsefor2.vuego", map[string]int{"OL4": 1}, nil, "", nil},
 	{"tmplonce", "p_tmplonce.vuego", map[string]int{"OR": 1}, nil, "", nil},
@@ -123,7 +126,7 @@ type c16Case struct {
 
 func (c *c16Case) Key() string { return core.KeyOf(c) }
 
-var c16Markers = []string{"M01", "M02", "M03", "M04", "M05", "M06", "M07", "M08", "M09", "M10", "M11", "M12", "N01", "N02", "N03", "N04", "N05", "N06", "N07", "N08", "N09", "N10", "N11", "OX", "OY", "OZ2", "OZ", "OG", "OH", "OK", "OR", "OL1", "OL2", "OL3", "OL4", "OE2", "OE", "OF", "OI", "LA", "LB", "OT", "OU", "OW", "ON", "N1W", "N1S", "N2W", "N2S", "O1", "O2", "O3", "OA", "OB2", "OB", "OC", "OAC", "OS", "OL2", "OL", "OO"}
+var c16Markers = []string{"LC", "LD", "LE", "LF", "LG", "M01", "M02", "M03", "M04", "M05", "M06", "M07", "M08", "M09", "M10", "M11", "M12", "N01", "N02", "N03", "N04", "N05", "N06", "N07", "N08", "N09", "N10", "N11", "OX", "OY", "OZ2", "OZ", "OG", "OH", "OK", "OR", "OL1", "OL2", "OL3", "OL4", "OE2", "OE", "OF", "OI", "LA", "LB", "OT", "OU", "OW", "ON", "N1W", "N1S", "N2W", "N2S", "O1", "O2", "O3", "OA", "OB2", "OB", "OC", "OAC", "OS", "OL2", "OL", "OO"}
 
 func c16Count(out string) map[string]int {
 	m := map[string]int{}
@@ -215,7 +218,7 @@ func init() {
 	core.Register(&core.Check{
 		ID:    "C16",
 		Level: "model_checking",
-		Rule: "29 placements of 1-4 v-once elements (v-once nested inside v-once at top level, in a loop and in two components included from a loop, in a component whose root is a <template> tag (inside, on and after it), on v-else / v-else-if members and on the v-else of an empty v-for inside a loop, together with v-if, together with v-for and a v-if that is false for the first item, on chain members that are loops themselves, in slot content a page hands to its layout, top level, inside v-for, on the looped element itself, in a component included 1..3 times, in two different components, in a component included from a loop, nested components, slot content used once / twice / in a loop, v-if branches, page + two layouts each including the same component, twelve v-once elements in one file (IDs of more than one digit), a string template rendered on a template object that has loaded the very file the string includes) x 7 entry points (Load+Render, RenderFile, Vue.Render, Vue.RenderFragment, RenderString/Byte/Reader) x every history of <=L renders on one long-lived engine; " +
+		Rule: "30 placements of 1-4 v-once elements (v-once nested inside v-once at top level, in a loop and in two components included from a loop, in a component whose root is a <template> tag (inside, on and after it), on v-else / v-else-if members and on the v-else of an empty v-for inside a loop, together with v-if, together with v-for and a v-if that is false for the first item, on chain members that are loops themselves, in slot content a page hands to its layout (one and two slot templates), top level, inside v-for, on the looped element itself, in a component included 1..3 times, in two different components, in a component included from a loop, nested components, slot content used once / twice / in a loop, v-if branches, page + two layouts each including the same component, twelve v-once elements in one file (IDs of more than one digit), a string template rendered on a template object that has loaded the very file the string includes) x 7 entry points (Load+Render, RenderFile, Vue.Render, Vue.RenderFragment, RenderString/Byte/Reader) x every history of <=L renders on one long-lived engine; " +
 			"oracle: every marked source element occurs exactly once per render (per link of a layout chain), unreached ones zero times. states = renders checked; non-trivial = all",
 		Bounds:      map[string]string{"quick": "L=2 (all ordered pairs of programs)", "thorough": "L=3 (all ordered triples)"},
 		Assumptions: []string{"markers are counted textually as >MARK< in the output"},
